@@ -127,8 +127,16 @@ where
     while n < n_max {
         let guess = f(initial);
         let new_guess = f(guess);
-        let diff = initial
-            - (guess - initial).powi(2) / (new_guess - N::from_f64(2.0).unwrap() * guess + initial);
+        let denom = new_guess - N::from_f64(2.0).unwrap() * guess + initial;
+        if denom == N::zero() {
+            // Aitken's quotient would be 0/0 (converged to machine precision) or x/0
+            return if (guess - initial).abs() <= tol {
+                Ok(guess)
+            } else {
+                Err("Steffensen: second difference vanished".to_owned())
+            };
+        }
+        let diff = initial - (guess - initial).powi(2) / denom;
         if (diff - initial).abs() <= tol {
             return Ok(diff);
         }
